@@ -14,6 +14,7 @@ import PdbModel.DriverC18
 import PdbModel.DriverC17
 import PdbModel.DriverC13
 import PdbModel.DriverC14
+import PdbModel.DriverC16
 namespace PdbModel
 
 def parseLevels (t : String) : Option (List ErrorLevel) :=
@@ -53,6 +54,7 @@ def handle (line : String) : String :=
   | "c17" :: rest => (handleC17 rest).getD "BAD-REQUEST"
   | "c13" :: rest => (handleC13 rest).getD "BAD-REQUEST"
   | "c14" :: rest => (handleC14 rest).getD "BAD-REQUEST"
+  | "c16" :: rest => (handleC16 rest).getD "BAD-REQUEST"
   | _ => "BAD-REQUEST"
 
 end PdbModel
